@@ -578,8 +578,14 @@ add("ApplicationTools.range-vector-readers", {"1", "9", ",", "1:3", "9:1", "(", 
   // concatenation such as "seq(from=0,to=1,)seq(from=1e16,..." parses as a request for 1e16 elements, i.e. an allocation that is huge but
   // proportional to the numbers the input states -- not the 'unbounded allocation' the statement excludes, and not driven.
   add("NumCalcApplicationTools.getVector.step-below-resolution", {"seq(from=1e16,to=10000000000000004,step=1)", "seq(from=1e16,to=10000000000000004,step=0.5)", "seq(from=-1e16,to=-9999999999999996,step=1)",
-      "seq(from=1e16,to=10000000000000004,size=3)", "seq(from=1e16,to=10000000000000004,step=2)", "seq(from=1,to=1.0000000000000004,step=1e-17)"}, {"-"}, [](const string& s, int, vf::Case& c) {
+      "seq(from=1e16,to=10000000000000004,size=3)", "seq(from=1e16,to=10000000000000004,step=2)", "seq(from=1,to=1.0000000000000004,step=1e-17)",
+      "seq(from=0,to=1,size=-2147483648)", "seq(from=0,to=1,size=-2147483647)", "seq(from=0,to=1,size=2147483648)", "seq(from=0,to=1,size=0)"}, {"-"}, [](const string& s, int, vf::Case& c) {
     S(c, "NumCalcApplicationTools::getVector"); use(NumCalcApplicationTools::getVector(s));
+  }, true);
+  // integer ranges at the limits of int (whole descriptions again: "1:2147483647" would be a request for 2^31 elements)
+  add("NumCalcApplicationTools.seqFromString.int-limits", {"2147483646:2147483647", "2147483647:2147483646", "-2147483648:-2147483647", "-2147483647:-2147483648", "2147483647", "-2147483648", "2147483648:2147483649", "2147483647:2147483647"},
+      {"delim=\",\" seqdelim=\":\""}, [](const string& s, int, vf::Case& c) {
+    S(c, "NumCalcApplicationTools::seqFromString"); use(NumCalcApplicationTools::seqFromString(s, ",", ":"));
   }, true);
 
   // ---- ComputationTree -----------------------------------------------------------------------------------------
@@ -620,6 +626,7 @@ int main(int argc, char** argv) {
     {"DataTable.edits", {4, 5}},
     {"NumCalcApplicationTools.getVector.words", {4, 5}},
     {"NumCalcApplicationTools.getVector.step-below-resolution", {1, 1}},
+    {"NumCalcApplicationTools.seqFromString.int-limits", {1, 1}},
     {"readDiscreteDistribution.Simple", {2, 3}},
     {"readDiscreteDistribution.Uniform", {3, 4}},          // a well-formed Uniform needs three arguments
     {"readDiscreteDistribution.compound", {4, 5}},
@@ -651,7 +658,7 @@ int main(int argc, char** argv) {
       if (idx % 7919 == 11) c.sample(ep.name + " [" + ep.opts[(size_t)opt] + "] " + show(in) + (c.failed ? " -> violation" : " -> ok"));
     }, 6.0, 256);
     // ---- repetition families: every word of 1..3 letters repeated to >= 64 and >= 4096 bytes ----
-    if (ep.name.find(".step-below-resolution") != string::npos) continue;   // whole descriptions: a repetition is a request for ~1e16 elements (see the entry point)
+    if (ep.name.find(".step-below-resolution") != string::npos || ep.name.find(".int-limits") != string::npos) continue;   // whole descriptions: a repetition is a request for ~1e16 elements (see the entry point)
     int wl = (A > 12) ? 2 : 3;
     if (ep.name.find(".empty-delimiters") != string::npos) wl = 1;   // solid mode: every case fails on the unchanged tree
     if (ep.name.find("ComputationTree") == 0 || ep.name == "DataTable.edits") wl = 2;   // 4 KiB formulas / tables are the slowest cases
